@@ -25,11 +25,11 @@ import Pog.Lemmas.ClientGen
     3  property names pairwise distinct                                                  ✗     `property_names_pairwise_distinct_partial` (ASCII tags),
                                                                                                `…_counterexample` (`aé` / `a`)
     4  Protocol, APIClient and MockAPIClient written from the SAME tuples agree (C13)    full  `surfaces_agree`
-       … `MockAPIClient` as the mocks emitter calls it                                   ✗     `mock_surface_counterexample`, `mock_surface_empty_tag_counterexample`,
-                                                                                               `mock_surface_partial`
+       … `MockAPIClient` as the mocks emitter calls it: the visitor's tuples (F23 repaired) full  `mock_surface`, `mock_surface_former_witness`,
+                                                                                               `mock_surface_empty_tag_former_witness`
     5  `MockAPIClient.__init__` always has a body (C01, F31 repaired)                     full  `mock_init_body_never_empty`,
        `mock_client.py` compiles for a document without operations                             `mock_client_compiles_when_no_operation`
-       other ways `mock_client.py` does not compile                                      ✗     `mock_duplicate_argument_counterexample`
+       tag spellings no longer give `__init__` a duplicate argument (F23 repaired)       full  `mock_duplicate_argument_former_witness`, `mock_init_keywords_distinct_partial` (ASCII tags)
        … the tag `self` is not one of them (F64 repaired)                                 full  `mock_self_never_a_keyword`, `mock_self_argument_former_witness`
     6  `_<attr>` differs from every own member of the class, `_base_url` included         full  `private_attr_never_own_member`, `fixed_attrs_assigned_once`,
        (F64 repaired)                                                                          `private_attr_base_url_former_witness`
@@ -323,53 +323,34 @@ theorem surfaces_agree (tt : List TagTuple) :
   simp [protocolSkel_props, apiClientSkel_props, mockClientSkel_props, mockClientSkel_initParams, mockClientSkel_attrs,
     protocolSkel_methods, apiClientSkel_methods, mockClientSkel_methods, mockDefaults, List.map_map, Function.comp_def]
 
-/-- ✗ `mock_surface`: `MockAPIClient` (as `MocksEmitter.emit` calls the visitor: FIRST tag only, RAW tag string, insertion
-    order) exposes the properties of `APIClient` — false.  Witnesses (defect classes `mock-groups-by-first-raw-tag`,
-    `mock-client-props-order`): the second tag of an operation has no property; and even with one tag per operation the
-    order differs (`APIClient` sorts by key). -/
-theorem mock_surface_counterexample :
+/-- **C13, `mock_surface`** (F23 repaired; before the repair `MocksEmitter.emit` built its own tuples — FIRST tag only, RAW tag
+    string, insertion order — and this was false): the tuples the mocks emitter hands to `generate_client_mock_class` are the
+    tuples of `ClientVisitor.visit`, so `MockAPIClient` exposes the properties of `APIClient` — same names, same order, each
+    returning the Protocol of the tag client — for EVERY list of operation tags. -/
+theorem mock_surface (u : UInfo) (tagss : List (List Str)) :
+    mockTuples u tagss = tagTuples u tagss ∧
+    (mockClientSkel (mockTuples u tagss)).props.map (·.1) = (apiClientSkel (tagTuples u tagss)).props.map (·.1) ∧
+    (mockClientSkel (mockTuples u tagss)).props = (protocolSkel (tagTuples u tagss)).props ∧
+    (mockClientSkel (mockTuples u tagss)).initParams = kSelf :: (apiClientSkel (tagTuples u tagss)).props.map (·.1) := by
+  have h := mockTuples_eq_tagTuples u tagss
+  obtain ⟨_, h2, _, h4, h5, _⟩ := surfaces_agree (tagTuples u tagss)
+  rw [h]
+  exact ⟨rfl, h2, h4, by rw [h5, h2]⟩
+
+/-- The former witnesses of F23 (defect classes `mock-groups-by-first-raw-tag`, `mock-client-props-order`): the second tag of an
+    operation has its property on `MockAPIClient` too, and the order is `APIClient`'s (sorted by key). -/
+theorem mock_surface_former_witness :
     (apiClientSkel (tagTuples UInfo.ascii [[s "Users", s "admin-ops"]])).props.map (·.1) = [s "admin_ops", s "users"] ∧
-    (mockClientSkel (mockTuples UInfo.ascii [[s "Users", s "admin-ops"]])).props.map (·.1) = [s "users"] ∧
+    (mockClientSkel (mockTuples UInfo.ascii [[s "Users", s "admin-ops"]])).props.map (·.1) = [s "admin_ops", s "users"] ∧
     (apiClientSkel (tagTuples UInfo.ascii [[s "b"], [s "a"]])).props.map (·.1) = [s "a", s "b"] ∧
-    (mockClientSkel (mockTuples UInfo.ascii [[s "b"], [s "a"]])).props.map (·.1) = [s "b", s "a"] := by
+    (mockClientSkel (mockTuples UInfo.ascii [[s "b"], [s "a"]])).props.map (·.1) = [s "a", s "b"] := by
   decide
 
-/-- Witness 3 (defect class `mock-client-props-differ`): the empty tag is the group `""` for `APIClient` (module name `""`)
-    but `default` for the mocks emitter. -/
-theorem mock_surface_empty_tag_counterexample :
+/-- Former witness 3 (defect class `mock-client-props-differ`): the empty tag is the group `""` (module name `""`) for the mocks
+    emitter as for `APIClient` — before the repair it was `default` for the mocks. -/
+theorem mock_surface_empty_tag_former_witness :
     (apiClientSkel (tagTuples UInfo.ascii [[[]]])).props = [([], s "UnnamedClassClient")] ∧
-    (mockClientSkel (mockTuples UInfo.ascii [[[]]])).props = [(s "default", s "DefaultClientProtocol")] := by
-  decide
-
-/-- `mock_surface` restricted to the inputs the mocks emitter gets right (at most one tag per operation, no two distinct
-    first tags sharing a key, no empty tag): the same property names up to order. -/
-theorem mock_surface_partial (u : UInfo) (tagss : List (List Str)) (h1 : ∀ ts ∈ tagss, ts.length ≤ 1)
-    (h2 : ∀ a ∈ tagss, ∀ b ∈ tagss,
-      normTagKey u (a.head?.getD kDefaultTag) = normTagKey u (b.head?.getD kDefaultTag) → a.head?.getD kDefaultTag = b.head?.getD kDefaultTag)
-    (h3 : ∀ ts ∈ tagss, [] ∉ ts) :
-    ((apiClientSkel (tagTuples u tagss)).props.map (·.1)).Perm ((mockClientSkel (mockTuples u tagss)).props.map (·.1)) := by
-  obtain ⟨L, hL, hp⟩ := clientProps_perm u (opsOfTags tagss)
-  rw [clientProps_eq] at hL
-  simp only [Option.some.injEq] at hL
-  have hs := grouping_agree_of u (opsOfTags tagss)
-    (by intro op hop; obtain ⟨ts, hts, rfl⟩ := (mem_opsOfTags tagss op).1 hop; exact h1 ts hts)
-    (by
-      intro a ha b hb
-      obtain ⟨ta, hta, rfl⟩ := (mem_opsOfTags tagss a).1 ha
-      obtain ⟨tb, htb, rfl⟩ := (mem_opsOfTags tagss b).1 hb
-      exact h2 ta hta tb htb)
-    (by intro op hop; obtain ⟨ts, hts, rfl⟩ := (mem_opsOfTags tagss op).1 hop; exact h3 ts hts)
-  have hm : (groupEndpoints u (opsOfTags tagss)).map (·.module) = (groupMocks u (opsOfTags tagss)).map (·.module) := by
-    have := congrArg (List.map (·.1)) hs
-    simpa [surfaces, List.map_map, Function.comp_def] using this
-  rw [hm, ← hL] at hp
-  simpa [apiClientSkel_props, mockClientSkel_props, mockTuples, List.map_map, Function.comp_def, TagTuple.module] using hp.map tagAttr
-
-example :
-    let tagss := [[s "Users"], [], [s "Users"], [s "admin-ops"]]
-    (∀ ts ∈ tagss, ts.length ≤ 1) ∧
-    (∀ a ∈ tagss, ∀ b ∈ tagss, normTagKey UInfo.ascii (a.head?.getD kDefaultTag) = normTagKey UInfo.ascii (b.head?.getD kDefaultTag) →
-      a.head?.getD kDefaultTag = b.head?.getD kDefaultTag) ∧ (∀ ts ∈ tagss, [] ∉ ts) := by
+    (mockClientSkel (mockTuples UInfo.ascii [[[]]])).props = [([], s "UnnamedClassClientProtocol")] := by
   decide
 
 /-! ## 5 — the body of `MockAPIClient.__init__` (C01, finding F31) -/
@@ -389,13 +370,24 @@ theorem mock_client_compiles_when_no_operation (u : UInfo) :
       (mockClientSkel (mockTuples u [])).initParams = [kSelf] := by
   refine ⟨rfl, rfl, rfl⟩
 
-/-- ✗ witness (defect class `mock-client-duplicate-argument`): the first tags `Users` and `users` are two groups of the mocks
-    emitter with the same module name: `def __init__(self, users: …, users: …)`. -/
-theorem mock_duplicate_argument_counterexample :
-    (mockClientSkel (mockTuples UInfo.ascii [[s "Users"], [s "users"]])).initParams = [kSelf, s "users", s "users"] ∧
-      mockSyntaxOk (mockTuples UInfo.ascii [[s "Users"], [s "users"]]) = false ∧
+/-- The former witness of F23 (defect class `mock-client-duplicate-argument`): the tags `Users` and `users` of two operations are
+    ONE group of the mocks emitter (before the repair: two groups with the same module name,
+    `def __init__(self, users: …, users: …)`, a `SyntaxError`). -/
+theorem mock_duplicate_argument_former_witness :
+    (mockClientSkel (mockTuples UInfo.ascii [[s "Users"], [s "users"]])).initParams = [kSelf, s "users"] ∧
+      mockSyntaxOk (mockTuples UInfo.ascii [[s "Users"], [s "users"]]) = true ∧
       visitSyntaxOk (tagTuples UInfo.ascii [[s "Users"], [s "users"]]) = true := by
   decide
+
+/-- With ASCII tags the keywords of `MockAPIClient.__init__` are pairwise distinct, whatever spellings of a tag occur
+    (`property_names_pairwise_distinct_partial` through `mock_surface`; non-ASCII tags: `property_names_pairwise_distinct_counterexample`). -/
+theorem mock_init_keywords_distinct_partial (u : UInfo) (tagss : List (List Str))
+    (hascii : ∀ ts ∈ tagss, ∀ t ∈ ts, t.all isAscii = true) :
+    ((mockClientSkel (mockTuples u tagss)).initParams.drop 1).Nodup := by
+  rw [(mock_surface u tagss).2.2.2]
+  exact property_names_pairwise_distinct_partial u tagss hascii
+
+example : ∀ ts ∈ [[s "Data Sources"], [s "data_sources", s "admin-ops"], []], ∀ t ∈ ts, t.all isAscii = true := by decide
 
 /-- The former witness of `mock_self_argument_counterexample` (defect class `mock-client-self-argument`): the keyword of the tag
     `self` is `self_`, next to the receiver `self`: `mock_client.py` compiles. -/
